@@ -74,6 +74,10 @@ int main(int argc, char ** argv)
   sx::Options opt;
   opt.max_site_hits = K;
   opt.ax_log        = false;
+  // the primary double-beta routine (unit "bb", level = legacy mode): table indices are symbolic -> every
+  // feasible integer value is a decision of its own; no cascade-closure obligations (not a de-excitation routine)
+  const bool is_bb = !strncmp(U->name, "bb", 2) && strlen(U->name) == 2;
+  if (is_bb) { opt.concretise_any = true; opt.concretise_enum = true; }
 
   long disagreements = 0, obligations = 0, obl_failed = 0, obl_unknown = 0, paths_ok = 0, paths_port_threw = 0;
   long max_weight = 0;
@@ -223,7 +227,7 @@ int main(int argc, char ** argv)
       }
       flush_obligations();
       // C03: cascade energy closure for *low units (level energy in keV)
-      if (U->pl) {
+      if (U->pl && !is_bb) {
         obligations++;
         bool closed = false;
         if (esum.is_concrete()) closed = std::fabs(esum.c - level / 1000.) <= 0.003;
